@@ -473,10 +473,10 @@ main(int argc, char **argv)
 	int T = vx_is_thorough();
 	static mesh_arg MA[] = { { 1, 0 }, { 2, 0 }, { 16, 0 }, { 16, 1 }, { 1, 1 } };
 	static const int dq[] = { 5, 4, 4, 3, 3 };
-	static const int dt[] = { 7, 6, 6, 4, 4 };
+	static const int dt[] = { 6, 6, 5, 4, 4 };
+	char             name[48];
 	for (int i = 0; i < 5; i++) {
-		char name[48];
-		int  d = T ? dt[i] : dq[i];
+		int d = T ? dt[i] : dq[i];
 		snprintf(name, sizeof(name), "mesh-qd%d-%s-d%d", MA[i].qd,
 		    MA[i].nb ? "nonblock" : "blocking", d);
 		if (vx_time_left() < (T ? 120 : 10))
@@ -484,14 +484,23 @@ main(int argc, char **argv)
 		explore(name, run_mesh, &MA[i], d);
 	}
 	{
-		char name[48];
-		int  d = T ? 6 : 4;
+		int d = T ? 6 : 4;
 		snprintf(name, sizeof(name), "raw-3peers-d%d", d);
 		if (vx_time_left() > 10)
 			explore(name, run_raw, (void *) 0, d);
+		d = T ? 5 : 4;
 		snprintf(name, sizeof(name), "cooked-3peers-d%d", d);
 		if (vx_time_left() > 10)
 			explore(name, run_raw, (void *) 1, d);
+	}
+	// deeper runs only when the machine is fast enough today
+	if (T && vx_time_left() > 1000) {
+		snprintf(name, sizeof(name), "mesh-qd1-blocking-d7");
+		explore(name, run_mesh, &MA[0], 7);
+	}
+	if (T && vx_time_left() > 1000) {
+		snprintf(name, sizeof(name), "mesh-qd16-blocking-d6");
+		explore(name, run_mesh, &MA[2], 6);
 	}
 	vx_note("alphabet-mesh",
 	    "6 letters: send_i (no settle after it, so bursts queue up) recv_j "
